@@ -676,6 +676,19 @@ func (c *Check) withdrawRules(prefix string) {
 			r := stripConv(pa.Ret[0])
 			if r.IsAt("P1") {
 				okDefault = true
+				// the owner is the answer only when nothing is stored: the path has established that the stored value is
+				// absent (nil or empty) — any other test of the stored bytes (a minimum length, a format) hides an address
+				// the owner has set
+				var got *Term
+				for _, ev := range pa.Events {
+					if ev.Kind == EvCall && strings.HasSuffix(ev.CI.name, "KVStore.Get") && ev.Result != nil {
+						got = ev.Result
+					}
+				}
+				af := pa.AllFacts()
+				absent := got != nil && (af.Holds(mk("==", got, atom("#nil")), true) || af.Holds(mk("nonempty", got), false))
+				c.req(absent, prefix+".withdraw.address", unitConstruct(g, "default-only-when-absent"), pa.RetPos,
+					"the owner itself is returned only on a path that has established that no withdrawal address is stored (nil or empty value)")
 			} else if strings.HasSuffix(r.Op, "KVStore.Get") && len(r.A) >= 1 {
 				// the stored value of the withdraw-address family under the owner
 				k := stripConv(r.A[len(r.A)-1])
